@@ -5,7 +5,7 @@ ops (token syntax in Driver/FwShared.lean; the setup ops reset/ca/peer/rule/clea
   sleep <ns>                             -> ok      virtual time passes
   version <v>                            -> ok      preset Firewall.rulesVersion (only right after reset)
   stage <rule…10>                        -> ok      a rule of the next configuration
-  reload <dlca> <tcp> <udp> <dflt> <nonce> -> reloaded <version> | unchanged
+  reload <dlca> <tcp> <udp> <dflt> <nonce> [<unsafeNetworks>] -> reloaded <version> | unchanged
                                             | failed
                                             Interface.reloadFirewall with a config made of the staged rules
   conns                                  -> number of entries in Conntrack.Conns
@@ -127,14 +127,22 @@ def step (s : St) (args : List String) (impl : String) : St × Out :=
     match parseRule rule with
     | some r => ({ s with staged := s.staged ++ [(" ".intercalate rule, r)] }, { model := "ok", tag := "triv:stage" })
     | none => (s, badOp)
-  | ["reload", dlca, tcp, udp, dflt, nonce] =>
-    match natArg tcp, natArg udp, natArg dflt, natArg nonce with
-    | some tcp, some udp, some dflt, some nonce =>
+  | "reload" :: dlca :: tcp :: udp :: dflt :: nonce :: rest =>
+    -- an optional 6th argument: the unsafe networks of the node's (re-issued) certificate
+    let newUnsafe : Option (List Prefix) := match rest with
+      | [] => some s.my.unsafeNetworks
+      | [t] => prefixesTok t
+      | _ => none
+    match natArg tcp, natArg udp, natArg dflt, natArg nonce, newUnsafe with
+    | some tcp, some udp, some dflt, some nonce, some newUnsafe =>
       let d := dlca == "1"
       let lc : LoadCfg := { dlca := d, tcp := tcp, udp := udp, dflt := dflt, nonce := nonce,
                             rules := s.staged.map (·.1) }
-      if s.lastLoad == some lc then
-        -- `c.HasChanged("firewall")` is false: nothing happens
+      -- `certUnsafeChanged`: the certificate's unsafe networks differ from those the firewall was built with
+      let certChanged := decide (newUnsafe ≠ s.sys.fw.cfg.unsafeNetworks)
+      let my : Cert := { s.my with unsafeNetworks := newUnsafe }
+      if s.lastLoad == some lc && !certChanged then
+        -- `c.HasChanged("firewall")` is false and the certificate's unsafe networks are the same: nothing happens
         ({ s with staged := [] }, { model := "unchanged", verdict := expect "c19-noop-reload" impl "unchanged",
                                     tag := "reload:unchanged" })
       else if s.staged.any (fun x => !Spec.Fw.ruleValid x.2) then
@@ -142,17 +150,21 @@ def step (s : St) (args : List String) (impl : String) : St × Out :=
         ({ s with staged := [], lastLoad := some lc }, { model := "failed", tag := "reload:failed" })
       else
         let rules := s.staged.map (·.2)
-        let newFw := (Fw.new s.my d tcp udp dflt).addRules rules
+        let newFw := (Fw.new my d tcp udp dflt).addRules rules
         let sys := s.sys.reloadFirewall true (some newFw)
         let wrapped := sys.fw.rulesVersion == 0
         -- spec: flows survive a reload (they are revalidated lazily); the version wrap forgets them (F16)
         let live := s.flows.filter (fun f => decide (s.sys.now < f.expires))
-        ({ s with sys := sys, dlca := d, rules := rules, staged := [], lastLoad := some lc, epoch := s.epoch + 1,
+        let tag := if wrapped then "reload:wrap"
+          else if certChanged then "reload:cert"
+          else if d != s.dlca then "reload:dlca" else "reload:changed"
+        ({ s with sys := sys, my := my, dlca := d, rules := rules, staged := [], lastLoad := some lc,
+                  epoch := s.epoch + 1,
                   flows := if wrapped then [] else s.flows,
                   sure := if wrapped then [] else s.sure,
                   wrapLost := if wrapped then live else s.wrapLost },
-         { model := s!"reloaded {sys.fw.rulesVersion}", tag := if wrapped then "reload:wrap" else "reload:changed" })
-    | _, _, _, _ => (s, badOp)
+         { model := s!"reloaded {sys.fw.rulesVersion}", tag := tag })
+    | _, _, _, _, _ => (s, badOp)
   | ["conns"] =>
     (s, { model := toString s.sys.ct.conns.length, tag := "conns" })
   | _ => (s, badOp)
